@@ -78,6 +78,7 @@ struct Plan {
   uint64_t seed = 0, runseed = 0;
   int locale = LOC_C;
   int reuse = 0;                  // allocator reuse mode: freed blocks are handed out again at once (rt.cc)
+  int errno_mode = 0;             // caller's errno before each library call: 0 always zero, 1 drawn per op from a small set
   int perturb = 0;                // mem engine: also execute the partner run with another `fill` and compare results
   int fill = 0;                   // byte that fresh heap blocks and dead stack slots hold (0: default); perturbation partner of a run
   std::vector<Op> setup;          // executed by the controller before tasks start (shared read-only objects)
@@ -170,6 +171,7 @@ enum LeakScope { LEAKS_ALL = 0, LEAKS_CRYSTAL_OPS = 1, LEAKS_NONE = 2 };
 struct ExecHooks {
   bool deep_crystal_checks = false;   // C14 oracle after every op
   bool purity_monitors = false;       // C16 oracle 2 after every op
+  bool errno_mode = false;            // the caller's errno is not 0 at most calls (plan field errno_mode)
   int leak_scope = LEAKS_ALL;         // which leftover blocks this engine's property is about
 };
 
